@@ -34,6 +34,9 @@ type c12Lane struct {
 	WaitMs int    `json:"wait_ms"`
 	QoS    byte   `json:"qos"`
 	IdleMs int    `json:"idle_ms"` // online mode: the subscriber has been idle this long when the message arrives
+	// RetxMs > 0 (v5 subscriber, message with an expiry): the first copy is left unacknowledged, the connection is cut,
+	// and the session is resumed RetxMs later; the retransmission must carry the lifetime that is left THEN
+	RetxMs int `json:"retx_ms,omitempty"`
 }
 
 type c12Scen struct {
@@ -57,6 +60,9 @@ func genC12(t *rapid.T) c12Scen {
 		}
 		if l.Mode == "blocked" && l.SubV != 5 {
 			l.SubV = 5 // blocking uses Receive Maximum 1
+		}
+		if l.SubV == 5 && l.E > 0 && rapid.IntRange(0, 2).Draw(t, "retx") == 0 {
+			l.RetxMs = rapid.SampledFrom([]int{400, 1500, 2600}).Draw(t, "retxms")
 		}
 		s.Lanes = append(s.Lanes, l)
 	}
@@ -282,7 +288,7 @@ func runC12(s c12Scen, c *ev.Case) *ev.Violation {
 				return fail(ev.Violf("C12.connection-lost", "subscriber connection lost"))
 			}
 		}
-		if got != nil {
+		if got != nil && l.RetxMs == 0 {
 			switch got.QoS {
 			case 1:
 				_ = sub.Send(&mw.Packet{Type: mw.PUBACK, PacketID: got.PacketID})
@@ -361,6 +367,55 @@ func runC12(s c12Scen, c *ev.Case) *ev.Violation {
 			if r < lo || r > hi {
 				return fail(ev.Violf("C12.remaining-expiry", "forwarded Message Expiry Interval %d, original %d, waited in [%v,%v]: expected a value in [%d,%d]", r, l.E, wLo, wHi, lo, hi).
 					With("forwarded", r, "elapsed_s_lo", int(wLo.Seconds())))
+			}
+		}
+		// retransmission after a resume: the lifetime that is left now, not the one left at the first delivery
+		if got != nil && l.RetxMs > 0 && got.QoS > 0 {
+			sub.Kill()
+			if !waitClientGone(b, subID) {
+				return fail(harnessErr("subscriber still registered"))
+			}
+			time.Sleep(time.Duration(l.RetxMs) * time.Millisecond)
+			r0 := time.Now()
+			sub, err = connectSub(false, 0)
+			if err != nil {
+				return fail(harnessErr("%v", err))
+			}
+			dup, err := sub.WaitFor(func(p *mw.Packet) bool { return p.Type == mw.PUBLISH && string(p.Payload) == payload }, fixture.DefaultWait)
+			r1 := time.Now()
+			if err != nil {
+				// the lifetime may have run out meanwhile; whether an in-flight message is then still retransmitted is
+				// not stated by the property - nothing is asserted about a missing retransmission
+				o.labels = append(o.labels, "retransmission_absent")
+				return o
+			}
+			if dup.QoS == 1 {
+				_ = sub.Send(&mw.Packet{Type: mw.PUBACK, PacketID: dup.PacketID})
+			} else {
+				_ = sub.Send(&mw.Packet{Type: mw.PUBREC, PacketID: dup.PacketID})
+			}
+			o.labels = append(o.labels, "retransmission_expiry_checked")
+			o.nontrivial = true
+			w2Lo, w2Hi := r0.Sub(t1), r1.Sub(t0)
+			if dup.Props == nil || dup.Props.MessageExpiry == nil {
+				return fail(ev.Violf("C12.retx-expiry-absent", "retransmission of a message published with Message Expiry Interval %d reached the v5 subscriber without the property", l.E))
+			}
+			r := int(*dup.Props.MessageExpiry)
+			hi := l.E - int(math.Floor(w2Lo.Seconds()))
+			lo := l.E - int(math.Ceil(w2Hi.Seconds()))
+			if lo < 1 {
+				lo = 1
+			}
+			if hi < 1 {
+				hi = 1
+			}
+			logf("retransmission after [%v,%v] in the broker: forwarded expiry %d (original %d)", w2Lo, w2Hi, r, l.E)
+			if r > l.E {
+				return fail(ev.Violf("C12.expiry-larger", "retransmission: forwarded Message Expiry Interval %d is larger than the original %d", r, l.E))
+			}
+			if r < lo || r > hi {
+				return fail(ev.Violf("C12.retx-remaining-expiry", "retransmission after the message spent [%v,%v] in the broker: forwarded Message Expiry Interval %d, original %d, expected a value in [%d,%d]", w2Lo, w2Hi, r, l.E, lo, hi).
+					With("forwarded", r, "elapsed_s_lo", int(w2Lo.Seconds())))
 			}
 		}
 		return o
